@@ -240,6 +240,7 @@ where
     }
 
     fn clear_shrink(&mut self, num_rows: usize) {
+        self.null_group = None;
         self.values.clear();
         self.values.shrink_to(num_rows);
         self.map.clear();
